@@ -499,6 +499,9 @@ def run(facts, rep, tier):
     rule_r3(facts, rep)
     rule_r4(facts, rep)
     c04.rule_r5(facts, rep, "C20-R5")
+    rep.rule("C20-R5b", "= C04-R5b: every line has one owner - Arena::add_line stores and returns a freshly drawn id on every exit.")
+    from . import arena
+    arena.rule_fresh_ids(facts, rep, "C20-R5b")
     rule_r6(facts, rep)
     rep.rule("C20-R3b", "Asking a block for its note gives the owner: GraphNode::key() is Some only for the root kind (Document), and Graph::node_key climbs prev until then.")
     rule_r3b(facts, rep)
